@@ -310,7 +310,183 @@ def translate_repo(repo):
                 out.append('Definition gen_%s%s := %s.' % (full, args, body))
                 summary.append({'def': 'gen_' + full, 'file': rel, 'function': f.name, 'line': line, 'source': text, 'gallina': body})
             out.append('')
+    for fn in (translate_build_profile, translate_growth_call):
+        text, summ = fn(repo)
+        out.append(text)
+        summary += summ
     return '\n'.join(out) + '\n', summary
+
+
+# ------------------------------------------------------------------------------------------------
+# CompositionProfile.buildProfile: which row of the profile array the steps of an element are written to
+def _find_method(tree, cls, name):
+    for node in ast.walk(tree):
+        if isinstance(node, ast.ClassDef) and node.name == cls:
+            for f in node.body:
+                if isinstance(f, ast.FunctionDef) and f.name == name:
+                    return f
+    raise TranslateError('%s.%s not found' % (cls, name))
+
+
+def _is_self_attr(n, attr):
+    return isinstance(n, ast.Attribute) and n.attr == attr and isinstance(n.value, ast.Name) and n.value.id == 'self'
+
+
+def translate_build_profile(repo):
+    rel = 'kawin/diffusion/DiffusionParameters.py'
+    f = _find_method(ast.parse(open(os.path.join(repo, rel)).read()), 'CompositionProfile', 'buildProfile')
+    params = [a.arg for a in f.args.args]
+    if params != ['self', 'elements', 'x', 'z']:
+        raise TranslateError('buildProfile signature changed: %r' % params)
+    loops = [st for st in f.body if isinstance(st, (ast.For, ast.While))]
+    if len(loops) != 1 or not isinstance(loops[0], ast.For):
+        raise TranslateError('buildProfile: expected exactly one top-level for loop')
+    lp = loops[0]
+    why = 'buildProfile (line %d): ' % lp.lineno
+    # for i in range(len(elements)):
+    it = lp.iter
+    if not (isinstance(lp.target, ast.Name) and isinstance(it, ast.Call) and isinstance(it.func, ast.Name) and it.func.id == 'range'
+            and len(it.args) == 1 and isinstance(it.args[0], ast.Call) and isinstance(it.args[0].func, ast.Name) and it.args[0].func.id == 'len'
+            and len(it.args[0].args) == 1 and isinstance(it.args[0].args[0], ast.Name) and it.args[0].args[0].id == 'elements') or lp.orelse:
+        raise TranslateError(why + 'the outer loop is not `for i in range(len(elements))` but `for %s in %s`' % (ast.unparse(lp.target), ast.unparse(it)))
+    i = lp.target.id
+    key = lambda n: (isinstance(n, ast.Subscript) and isinstance(n.value, ast.Name) and n.value.id == 'elements'
+                     and isinstance(n.slice, ast.Name) and n.slice.id == i)
+    if len(lp.body) != 1 or not isinstance(lp.body[0], ast.If) or lp.body[0].orelse:
+        raise TranslateError(why + 'loop body is not a single `if`')
+    cond = lp.body[0]
+    t = cond.test
+    if not (isinstance(t, ast.Compare) and len(t.ops) == 1 and isinstance(t.ops[0], ast.In) and key(t.left) and _is_self_attr(t.comparators[0], 'compositionSteps')):
+        raise TranslateError(why + 'condition is not `elements[%s] in self.compositionSteps`: %s' % (i, ast.unparse(t)))
+    if len(cond.body) != 1 or not isinstance(cond.body[0], ast.For) or cond.body[0].orelse:
+        raise TranslateError(why + 'body of the condition is not a single for loop')
+    inner = cond.body[0]
+    if not (isinstance(inner.target, ast.Name) and isinstance(inner.iter, ast.Subscript) and _is_self_attr(inner.iter.value, 'compositionSteps') and key(inner.iter.slice)):
+        raise TranslateError(why + 'inner loop is not over self.compositionSteps[elements[%s]]: %s' % (i, ast.unparse(inner.iter)))
+    s = inner.target.id
+    if len(inner.body) != 1 or not isinstance(inner.body[0], ast.Expr) or not isinstance(inner.body[0].value, ast.Call):
+        raise TranslateError(why + 'inner loop body is not a single call')
+    call = inner.body[0].value
+    sub = lambda n, k: (isinstance(n, ast.Subscript) and isinstance(n.value, ast.Name) and n.value.id == s and isinstance(n.slice, ast.Constant) and n.slice.value == k)
+    if not (isinstance(call.func, ast.Subscript) and isinstance(call.func.value, ast.Name) and sub(call.func.slice, 0)):
+        raise TranslateError(why + 'the builder is not selected by %s[0]: %s' % (s, ast.unparse(call.func)))
+    a = call.args
+    if not (len(a) == 4 and isinstance(a[1], ast.Name) and a[1].id == 'x' and isinstance(a[2], ast.Name) and a[2].id == 'z'
+            and isinstance(a[3], ast.Starred) and sub(a[3].value, 1) and len(call.keywords) == 1 and call.keywords[0].arg is None and sub(call.keywords[0].value, 2)):
+        raise TranslateError(why + 'unexpected builder call: ' + ast.unparse(call))
+    if not (isinstance(a[0], ast.Name) and a[0].id == i):
+        raise TranslateError(why + 'row index passed to the builder is %s, not the loop index %s' % (ast.unparse(a[0]), i))
+    row = i
+    text = ['(* %s : CompositionProfile.buildProfile (line %d) *)' % (rel, lp.lineno),
+            'Definition gen_buildProfile {K Step Row : Type} (keq : K -> K -> bool) (apply : Step -> Row -> Row)',
+            '    (elements : list K) (compositionSteps : list (K * list Step)) (x : list Row) : list Row :=',
+            '  fold_left (fun x %s =>' % i,
+            '      match nth_error elements %s with' % i,
+            '      | Some e => match lookup keq e compositionSteps with',
+            '                  | Some steps => fold_left (fun x %s => upd_row %s (apply %s) x) steps x' % (s, row, s),
+            '                  | None => x end',
+            '      | None => x end) (seq 0 (length elements)) x.', '']
+    return '\n'.join(text), [{'def': 'gen_buildProfile', 'file': rel, 'function': 'buildProfile', 'line': lp.lineno,
+                               'source': ast.unparse(lp).split('\n')[0], 'gallina': 'row %s, key elements[%s]' % (row, i)}]
+
+
+# ------------------------------------------------------------------------------------------------
+# PrecipitateModel._singleGrowthMulti: what is handed to the backend for the phase at position p
+def translate_growth_call(repo):
+    rel = 'kawin/precipitation/KWNEuler.py'
+    f = _find_method(ast.parse(open(os.path.join(repo, rel)).read()), 'PrecipitateModel', '_singleGrowthMulti')
+    params = [a.arg for a in f.args.args]
+    if len(params) < 2 or params[0] != 'self':
+        raise TranslateError('_singleGrowthMulti signature changed: %r' % params)
+    p = params[1]
+    Q = '(nth %s ps d)' % p
+    env = {}
+
+    def at_p(n, attr):
+        return (isinstance(n, ast.Subscript) and _is_self_attr(n.value, attr) and isinstance(n.slice, ast.Name) and n.slice.id == p)
+
+    def is_params(n):
+        return at_p(n, 'precipitateParameters') or (isinstance(n, ast.Name) and env.get(n.id) == ('params',))
+
+    def arr(n):
+        """array-valued expression -> gallina of type A / B / C"""
+        if isinstance(n, ast.Name) and n.id in env and env[n.id][0] == 'expr':
+            return env[n.id][1]
+        if isinstance(n, ast.Attribute) and n.attr == 'PSDbounds' and at_p(n.value, 'PBM'):
+            return '(gbounds %s)' % Q
+        if at_p(n, '_precBetaTemp'):
+            return '(gbeta %s)' % Q
+        if isinstance(n, ast.Call) and _is_self_attr(n.func, 'particleGibbs'):
+            radius, phase = None, None
+            if len(n.args) > 2:
+                raise TranslateError('particleGibbs with %d positional arguments' % len(n.args))
+            if len(n.args) >= 1:
+                radius = n.args[0]
+            if len(n.args) == 2:
+                phase = n.args[1]
+            for kw in n.keywords:
+                if kw.arg == 'radius':
+                    radius = kw.value
+                elif kw.arg == 'phase':
+                    phase = kw.value
+                else:
+                    raise TranslateError('particleGibbs keyword %r' % kw.arg)
+            r = 'None' if radius is None or (isinstance(radius, ast.Constant) and radius.value is None) else '(Some %s)' % arr(radius)
+            ph = 'None' if phase is None or (isinstance(phase, ast.Constant) and phase.value is None) else '(Some %s)' % name(phase)
+            return '(particleGibbs gname gbounds gibbs ps d %s %s)' % (r, ph)
+        raise TranslateError('_singleGrowthMulti: cannot tell which phase `%s` belongs to' % ast.unparse(n))
+
+    def name(n):
+        if isinstance(n, ast.Attribute) and n.attr == 'phase' and is_params(n.value):
+            return '(gname %s)' % Q
+        if isinstance(n, ast.Subscript) and _is_self_attr(n.value, 'phases') and isinstance(n.slice, ast.Name) and n.slice.id == p:
+            return '(gname %s)' % Q
+        if isinstance(n, ast.Name) and n.id in env and env[n.id][0] == 'name':
+            return env[n.id][1]
+        raise TranslateError('_singleGrowthMulti: cannot tell which phase name `%s` is' % ast.unparse(n))
+
+    found = []
+
+    def visit(body):
+        for st in body:
+            if isinstance(st, ast.Assign) and len(st.targets) == 1 and isinstance(st.targets[0], ast.Name):
+                nm, v = st.targets[0].id, st.value
+                if at_p(v, 'precipitateParameters'):
+                    env[nm] = ('params',)
+                else:
+                    try:
+                        env[nm] = ('expr', arr(v))
+                    except TranslateError:
+                        try:
+                            env[nm] = ('name', name(v))
+                        except TranslateError:
+                            env.pop(nm, None)
+            for ch in ast.walk(st) if not isinstance(st, (ast.If, ast.For, ast.While, ast.Try, ast.With)) else []:
+                if isinstance(ch, ast.Call) and isinstance(ch.func, ast.Attribute) and ch.func.attr == 'getGrowthAndInterfacialComposition':
+                    found.append(ch)
+            for sub in ('body', 'orelse', 'finalbody'):
+                if isinstance(st, (ast.If, ast.For, ast.While, ast.Try, ast.With)) and getattr(st, sub, None):
+                    if isinstance(st, ast.If) and sub == 'body':
+                        for ch in ast.walk(st.test):
+                            if isinstance(ch, ast.Call) and isinstance(ch.func, ast.Attribute) and ch.func.attr == 'getGrowthAndInterfacialComposition':
+                                found.append(ch)
+                    visit(getattr(st, sub))
+
+    visit(f.body)
+    if len(found) != 1:
+        raise TranslateError('_singleGrowthMulti: expected one call of getGrowthAndInterfacialComposition, found %d' % len(found))
+    c = found[0]
+    kws = {k.arg: k.value for k in c.keywords}
+    if len(c.args) != 5 or 'precPhase' not in kws or 'searchDir' not in kws:
+        raise TranslateError('_singleGrowthMulti: unexpected argument list ' + ast.unparse(c))
+    body = '(%s, %s, %s, %s)' % (arr(c.args[3]), arr(c.args[4]), name(kws['precPhase']), arr(kws['searchDir']))
+    text = ['(* %s : PrecipitateModel._singleGrowthMulti (line %d): (radii, Gibbs-Thomson energies, precPhase, searchDir) *)' % (rel, c.lineno),
+            '(* %s *)' % ast.unparse(c).replace('*)', '* )'),
+            'Definition gen_singleGrowthMulti_call {P A B C : Type} (gname : P -> nat) (gbounds : P -> A) (gibbs : P -> A -> B) (gbeta : P -> C)',
+            '    (ps : list P) (d : P) (%s : nat) : A * B * nat * C :=' % p,
+            '  %s.' % body, '']
+    return '\n'.join(text), [{'def': 'gen_singleGrowthMulti_call', 'file': rel, 'function': '_singleGrowthMulti', 'line': c.lineno,
+                               'source': ast.unparse(c), 'gallina': body}]
 
 
 if __name__ == '__main__':
